@@ -14,7 +14,7 @@ from contracts.c90_doc import BOUND, doc_inputs, lines_of, expected_lines, kern_
 
 
 # ================================================================================================================ C12
-GARBAGE = ['4d@x', '2a@x', '4zz', 'zz', '4c&&&', '4cR', '4c4c%', '=1x%', '*clefQ9', 'c4@', '@', '4%', '8..', '%%', '4c##x#', 'Ñ', '4c\x7f']
+GARBAGE = ['4d@x', '2a@x', '4d@', '4E·J', '4zz', 'zz', '4c&&&', '4cR', '4c4c%', '=1x%', '*clefQ9', 'c4@', '@', '4%', '8..', '%%', '4c##x#', 'Ñ', '4c\x7f']
 
 
 @contract(None, props=['C12'], bounded=BOUND + '; 1..3 cells replaced by malformed text (unknown characters, wrong order, truncated, valid + garbage)')
@@ -208,7 +208,7 @@ def deep_snapshot(doc):
 
 
 READ_OPS = ['dumps', 'dumps_opts', 'dumps_range', 'dumps_bad', 'tokens', 'unique', 'freq', 'meta', 'spine_types', 'mono', 'iter', 'count', 'graph',
-            'dumps_agnostic', 'encodings', 'header_nodes', 'spine_ids']
+            'dumps_agnostic', 'encodings', 'header_nodes', 'spine_ids', 'iter_abandoned', 'iter_overlapping', 'next']
 
 
 def run_op(doc, op, rng):
@@ -238,6 +238,13 @@ def run_op(doc, op, rng):
             return kp.is_monophonic(doc)
         if op == 'iter':
             return list(doc)
+        if op == 'iter_abandoned':
+            it = iter(doc)
+            return [next(it, None), next(it, None)]          # an iteration that is left half way
+        if op == 'iter_overlapping':
+            return list(zip(doc, doc))[:6]                   # two iterations of the same document at the same time
+        if op == 'next':
+            return next(doc)
         if op == 'count':
             return doc.measures_count()
         if op == 'encodings':
@@ -285,7 +292,7 @@ class read_only_api_is_pure:
         return True
 
 
-@contract(None, props=['C04', 'C05', 'C14'], bounded=BOUND + '; 2..5 requests served by one Exporter object (export_string with random options, get_spine_types)')
+@contract(None, props=['C04', 'C05', 'C13', 'C14'], bounded=BOUND + '; 2..5 requests served by one Exporter object (export_string with random options, get_spine_types)')
 class exporter_object_history_independent:
     """An Exporter object that serves several requests answers each of them as a fresh Exporter would (the public API builds a
     fresh one per call, Exporter.get_spine_types and callers that keep the object do not): whatever an exporter remembers between
@@ -584,7 +591,7 @@ class excerpt_is_self_contained:
     """C08 (claimed core class): every measure-range export is a well-formed Humdrum document that re-imports without errors, and
     every note in it is governed by the same clef, key signature and time signature as in the full score."""
     def inputs(g):
-        score, rng = kern_score(g, comments=False, signatures_first=True, mid_signatures=False)
+        score, rng = kern_score(g, comments=True, signatures_first=True, mid_signatures=False)
         M = len(measures_of(score))
         a = rng.randint(1, M)
         return {'score': score, 'a': a, 'b': rng.randint(a, M)}
@@ -631,7 +638,7 @@ class excerpt_between_signature_changes:
     (the changes lie before it or after it) is well formed, re-imports, and its notes are governed as in the full score.  (Excerpts
     that contain a change: known finding, see excerpt_known_classes.)"""
     def inputs(g):
-        score, rng = kern_score(g, comments=False, signatures_first=True, mid_signatures=True, quiet=True, spines=rng_spines(g))
+        score, rng = kern_score(g, comments=True, signatures_first=True, mid_signatures=True, quiet=True, spines=rng_spines(g))
         M = len(measures_of(score))
         a = rng.randint(1, M)
         return {'score': score, 'a': a, 'b': rng.randint(a, M)}
